@@ -224,7 +224,12 @@ class FAMC:
         if acc.ndim < 2:
             return self.estimate(acc, mag)
         num_samples = len(acc)
-        return np.array([self.estimate(acc[t], mag[t]) for t in range(num_samples)])
+        Q = np.full((num_samples, 4), np.nan)       # Samples without an estimate (null or NaN readings) stay NaN
+        for t in range(num_samples):
+            q = self.estimate(acc[t], mag[t])
+            if q is not None:
+                Q[t] = q
+        return Q
 
     def estimate(self, acc: np.ndarray, mag: np.ndarray) -> np.ndarray:
         """
